@@ -86,3 +86,78 @@ Example ex_C12_divisive_by_name :
   effective_divisive (Some (Some "KR"%string)) None = true /\ effective_divisive (Some (Some "weight"%string)) None = false /\
   effective_divisive (Some (Some "KR"%string)) (Some false) = false.
 Proof. vm_compute. repeat split. Qed.
+
+(** ---- the same statements in IEEE-754 binary64, bit for bit (Model/BalancedF.v, Proofs/BalancedFProofs.v).
+    Both sides of each equation are primitive-float terms, so rounding, infinities and NaN are those of the machine
+    operations the kernel evaluates; [fwt w dv k] is the stored weight of bin k or [1 / w] when the column is divisive. *)
+From Cooler Require Import Model.BalancedF Proofs.BalancedFProofs.
+From Coq Require Import SpecFloat FloatOps.
+
+(** the rational model and the binary64 model are one generic definition at two scalar types *)
+Theorem C12_models_share_one_definition : forall d w bb dv out,
+  balanced_dense d w bb dv = gbalanced_dense winv (fun x y v => wmul (wmul x y) (wofZ v)) d w bb dv /\
+  balanced_sparse out w bb dv = gbalanced_sparse winv (fun x y v => wmul (wmul x y) (wofZ v)) None out w bb dv /\
+  balanced_pixels out w dv = gbalanced_pixels winv (fun x y v => wmul (wmul x y) (wofZ v)) None out w dv.
+Proof. intros d w [[[i0 i1] j0] j1] dv out. repeat split. Qed.
+Print Assumptions C12_models_share_one_definition.
+
+(** dense: cell (a, b) = float(raw) * (w_row * w_col) — numpy's  arr * np.outer(bias1, bias2) *)
+Theorem C12_float_dense_cell : forall d w i0 i1 j0 j1 dv a b,
+  0 <= i0 -> i0 <= i1 -> i1 <= zlen w -> 0 <= j0 -> j0 <= j1 -> j1 <= zlen w ->
+  zlen d = i1 - i0 -> (forall r, In r d -> zlen r = j1 - j0) ->
+  0 <= a < i1 - i0 -> 0 <= b < j1 - j0 ->
+  nth (Z.to_nat b) (nth (Z.to_nat a) (fbalanced_dense d w (i0, i1, j0, j1) dv) []) PrimFloat.nan =
+  PrimFloat.mul (f_of_Z (nth (Z.to_nat b) (nth (Z.to_nat a) d []) 0)) (PrimFloat.mul (fwt w dv (i0 + a)) (fwt w dv (j0 + b))).
+Proof. exact fbalanced_dense_cell. Qed.
+Print Assumptions C12_float_dense_cell.
+
+Theorem C12_float_dense_balanced_full : forall n epx off cs w dv i0 i1 j0 j1,
+  ValidCSR n epx off -> Upper epx -> 1 <= cs ->
+  0 <= i0 -> i0 <= i1 -> i1 <= n -> 0 <= j0 -> j0 <= j1 -> j1 <= n -> zlen w = n ->
+  exists D, fmatrix_balanced epx off cs true Dense (Some (Some w)) dv (i0, i1, j0, j1) = Some (FDense D) /\
+    forall a b, 0 <= a < i1 - i0 -> 0 <= b < j1 - j0 ->
+      nth (Z.to_nat b) (nth (Z.to_nat a) D []) PrimFloat.nan =
+      PrimFloat.mul (f_of_Z (symm (map snd epx) (i0 + a) (j0 + b))) (PrimFloat.mul (fwt w dv (i0 + a)) (fwt w dv (j0 + b))).
+Proof. exact fdense_balanced_full. Qed.
+Print Assumptions C12_float_dense_balanced_full.
+
+(** sparse / pixels: (w_row * w_col) * float(raw) on every emitted entry *)
+Theorem C12_float_sparse_entries : forall out w i0 i1 j0 j1 dv,
+  0 <= i0 -> i0 <= i1 -> i1 <= zlen w -> 0 <= j0 -> j0 <= j1 -> j1 <= zlen w ->
+  (forall r, In r out -> in_window (i0, i1, j0, j1) (snd r) = true) ->
+  fbalanced_sparse out w (i0, i1, j0, j1) dv =
+  map (fun r => (fst (snd r), PrimFloat.mul (PrimFloat.mul (fwt w dv (row (snd r))) (fwt w dv (col (snd r)))) (f_of_Z (val (snd r))))) out.
+Proof. exact fbalanced_sparse_spec. Qed.
+Print Assumptions C12_float_sparse_entries.
+Theorem C12_float_pixels_column : forall out w dv,
+  fbalanced_pixels out w dv =
+  map (fun r => (r, PrimFloat.mul (PrimFloat.mul (fwt w dv (row (snd r))) (fwt w dv (col (snd r)))) (f_of_Z (val (snd r))))) out.
+Proof. exact fbalanced_pixels_spec. Qed.
+Print Assumptions C12_float_pixels_column.
+
+(** NaN wherever either bin is masked — through the IEEE semantics of the primitive operations *)
+Theorem C12_float_masked_bin_gives_nan : forall w dv k x v,
+  is_nan_f (gnth PrimFloat.nan w k) ->
+  is_nan_f (f_cell_dense (fwt w dv k) x v) /\ is_nan_f (f_cell_dense x (fwt w dv k) v) /\
+  is_nan_f (f_cell_entry (fwt w dv k) x v) /\ is_nan_f (f_cell_entry x (fwt w dv k) v).
+Proof. exact fmasked_bin_gives_nan. Qed.
+Print Assumptions C12_float_masked_bin_gives_nan.
+
+Theorem C12_float_missing_column_is_error : forall epx off cs fill form dv bb,
+  fmatrix_balanced epx off cs fill form (Some None) dv bb = None.
+Proof. exact fmissing_column_is_error. Qed.
+Print Assumptions C12_float_missing_column_is_error.
+
+(** non-vacuity: 0.1 * 0.3 * 7 is not a dyadic computation; the divisive cell is 6 * ((1/0.1) * (1/0.3)) *)
+Example ex_C12_float :
+  let w := [0x1.999999999999ap-4; PrimFloat.nan; 0x1.3333333333333p-2]%float in
+  match fmatrix_balanced (epx_of ex12_px) (offsets_of 3 ex12_px) 2 true Dense (Some (Some w)) false (0,1,0,3),
+        fmatrix_balanced (epx_of ex12_px) (offsets_of 3 ex12_px) 2 true Dense (Some (Some w)) true (0,1,2,3) with
+  | Some (FDense [[a; b; c]]), Some (FDense [[d]]) =>
+      (Prim2SF a, Prim2SF b, Prim2SF c, Prim2SF d) =
+      (Prim2SF (4 * (0x1.999999999999ap-4 * 0x1.999999999999ap-4))%float, S754_nan,
+       Prim2SF (6 * (0x1.999999999999ap-4 * 0x1.3333333333333p-2))%float,
+       Prim2SF (6 * ((1 / 0x1.999999999999ap-4) * (1 / 0x1.3333333333333p-2)))%float)
+  | _, _ => False
+  end.
+Proof. vm_compute. reflexivity. Qed.
